@@ -128,7 +128,7 @@ pub fn gen_project(rng: &mut crate::rng::Rng, rare_features: bool) -> Option<(St
 pub fn run_c04(ctx: &Ctx, rep: &mut Report) {
     crate::gen_syntax::set_allow_block(false);
     rep.note("feature mask: no block strings (C07)");
-    let n = ctx.budget(8_000, 500_000);
+    let n = ctx.budget(48_000, 1_000_000);
     for case in 0..n {
         let mut rng = ctx.rng("case", case);
         let Some((schema, doc, _)) = gen_project(&mut rng, true) else {
@@ -195,7 +195,7 @@ pub fn check_fault(schema: &str, op_text: &str, rule: &str, label: &str, kinds: 
 pub fn run_c03(ctx: &Ctx, rep: &mut Report) {
     crate::gen_syntax::set_allow_block(false);
     rep.note("feature mask: no block strings (C07), no coercing literals in the base documents (C04)");
-    let n = ctx.budget(5_000, 300_000);
+    let n = ctx.budget(25_000, 600_000);
     for case in 0..n {
         let mut rng = ctx.rng("case", case);
         let Some((schema, doc, ix)) = gen_project(&mut rng, false) else {
